@@ -23,7 +23,7 @@ def task(item):
     if kind == 'depth': return job_depth(item[1:])
     if kind == 'lexlong':
         _, spec, dl = item
-        return LJ.lexer_job(PROG, LJ.make_chars_from(spec), dl, seed=SEED, label=f'{spec[0]} + {len(spec) - 3} x a + 2 symbolic', keyprefix='c05x')
+        return LJ.lexer_job(PROG, LJ.make_chars_from(spec), dl, seed=SEED, label=f'{spec[0]} + {sum(1 for x in spec if x == "a")} x a + 2 symbolic' + (' closed' if spec[-1] is not None else ''), keyprefix='c05x')
     if kind == 'call':
         from . import funcjob as FJ
         _, name, lists, dl, mode = item
@@ -128,7 +128,9 @@ def run(run):
     # long delimited bodies: q + n x 'a' + two arbitrary code points (+ end of input), every n up to LONG -- buffer thresholds, byte/char index confusion
     LONG = 80
     for q in ('"', "'", '`'):
-        for n in range(3, LONG + 1): jobs.append(('lexlong', [q] + ['a'] * n + [None, None], dl))
+        for n in range(3, LONG + 1):
+            jobs.append(('lexlong', [q] + ['a'] * n + [None, None], dl))
+            if q != "'": jobs.append(('lexlong', [q] + ['a'] * n + [None, None, q], dl))          # closed: the JSON decoding of the body may fail with these two characters
     # built-in calls: every function on every combination of type representatives (incl. empty arrays/strings/objects) and on its own value universe
     from . import funcs as F, funcjob as FJ
     U = FJ.universes(2)
@@ -146,7 +148,7 @@ def run(run):
                 vals = r.get('values')
                 run.cands.append({'key': 'c05:kani-' + r['harness'], 'what': 'Kani: ' + c['desc'], 'witness': {'values': vals}, 'request': kani_slice_request(r['harness'], vals), 'expected': 'no panic'})
     run.bounds = {'public number path': 'compile + search of [N] [N:] [:N] [::N] a[N] [0:N:1] with N = 21474836dd, d, d000000000 (d symbolic digits) with and without a minus sign, on arrays of 0, 1 and 3 elements',
-                  'long delimited bodies': 'quote + n x "a" + 2 arbitrary code points, closed or unterminated, for every n <= 80 and each of the three delimiters',
+                  'long delimited bodies': 'quote + n x "a" + 2 arbitrary code points, unterminated (all three delimiters) and closed (quoted identifier, literal: the body then goes through JSON decoding), for every n <= 80',
                   'lexer': 'strings of <= ' + ('2' if quick else '3') + ' arbitrary Unicode scalar values; number tokens of 10-12 symbolic digits around the i32 edge (with/without minus); unterminated and malformed quoted forms with symbolic characters',
                   'parser': f'every token sequence of <= {N} tokens (symbolic numbers over the lexer range); peek/advance past the end included',
                   'evaluator': 'Index over the whole lexer range incl. (-idx) as usize; slices over all i32 (kernel) / the lexer range (interpret arm); every compound node kind over leaf children on symbolic documents',
